@@ -24,6 +24,8 @@ LEAVES_WIT = LEAVES_FULL + ('WE', 'WP', 'WRET', 'SPEND', 'DROP', 'EMPTY')
 def _grammar(name):
     if name == 'full':
         return (LEAVES_FULL, ONE_FULL, TWO_FULL)
+    if name == 'fork':     # full grammar + a forked instruction with count 0, 1, 2 (rendered by the caller)
+        return (LEAVES_FULL + ('FORK0', 'FORK1', 'FORK2'), ONE_FULL, TWO_FULL)
     if name == 'wit':      # adversarial witness family: full grammar + cache writes, call-budget spending, stack drop
         return (LEAVES_WIT, ONE_FULL, TWO_FULL)
     return (LEAVES_SKEL, ONE_SKEL, TWO_SKEL)
